@@ -1,3 +1,4 @@
+import XPathV.Lemmas.PathSem
 import XPathV.Lemmas.AxesLemmas
 import XPathV.Generated.ExtraFacts
 import XPathV.Model.Api
@@ -31,7 +32,8 @@ theorem shortcut_condition_ok : Generated.shortcutCondSrc =
     "!(root.Input==nil) && (flags&flagsEnum.Filter)==0 && root.AxisType==\"child\"&&(root.Input.Type()==nodeAxis) && input:=root.Input.(*axisNode);input.AxisType==\"descendant-or-self\"&&input.typeTest==allNode&&input.LocalName==\"\"&&input.Prefix==\"\"" := rfl
 
 /-- the model's shortcut guard is read off the source and is on -/
-theorem shortcut_guard_from_source : Model.shortcutNeedsNodeTestFromSource = true := by decide +kernel
+theorem shortcut_guard_from_source : Model.shortcutNeedsNodeTestFromSource = true :=
+  Lemmas.SourceConfig.shortcut_guard_from_source
 
 /-! ## The Go traversal loops enumerate the XPath axes (every well-formed document, every node) -/
 
@@ -66,5 +68,35 @@ theorem preceding_walk {d : Doc} (wf : WF d) (i : Nat) (hi : i < d.length) (x : 
     x ∈ (precRoots d (2 * d.length + 2) (.node i) false).flatMap (fun rb => rb.1 :: (descM d rb.1).map (·.1)) ↔
       x ∈ Spec.preceding d (.node i) :=
   preceding_spec wf i hi x
+
+/-! ## The main theorem -/
+
+variable {F : Type} [NumAlg F]
+
+/-- **C01** (full statement, closed): for every well-formed document, every valid context node
+(elements, text, comments, the root *and attributes*), and every predicate-free location path over
+the twelve axes with any node tests, the plan the builder model produces — with all its rewrites:
+the `//name` shortcut, descendant-over-descendant, `cachedChild` — yields exactly the XPath 1.0
+node-set of the path.  Neither side fails.  `HashInj` is the documented NoFnvCollision assumption
+(the ancestor axes de-duplicate by identity hash); `cfg.nsIface` says the navigator exposes
+namespace URIs.  The builder configuration is the one read off the current source. -/
+theorem C01_main {d : Doc} (wf : WF d) (cfg : ECfg) (hns : cfg.nsIface = true)
+    (hinj : PathSem.HashInj d cfg) (regexOk : RegexOk) (limit : Nat) (p : Ast) (hp : PathSem.PathPF p)
+    (o : BOut)
+    (hb : build regexOk limit shortcutNeedsNodeTestFromSource smartDescThroughFilterFromSource p {} {} = .ok o)
+    (c : Ref) (hc : validRef d c = true) :
+    ∃ out ns, sel (F := F) d cfg o.q c = .ok out ∧
+      Spec.evalTop (F := F) d p c = .ok (.nodes ns) ∧ ∀ x, x ∈ PathSem.refs out ↔ x ∈ ns :=
+  PathSem.C01_source_config wf cfg hns hinj regexOk limit p hp o hb c hc
+
+/-- a single step from any valid context node: the walk of each of the twelve axes is the XPath axis -/
+theorem C01_single_step {d : Doc} (wf : WF d) (o : Ref) (ho : validRef d o = true) (ax : String)
+    (hax : ax ∈ PathSem.axes12) (x : Ref) :
+    x ∈ PathSem.axisRefsM d ax o ↔ x ∈ (Spec.axisNodes d ax o).getD [] :=
+  PathSem.axisRefsM_spec wf o ho ax hax x
+
+/-- non-vacuity: `//b` (as the parser produces it) is in the fragment -/
+example : PathSem.PathPF (.axis ⟨"child", .elem, "", "b", "", false, ""⟩ (.axis ⟨"descendant-or-self", .all, "", "", "", false, ""⟩ (.root "//"))) :=
+  .axis _ _ (.axis _ _ (.root _) (by decide)) (by decide)
 
 end XPathV.Theorems.C01
